@@ -136,7 +136,7 @@ func (s *session) snapshot(deep bool) (snap server.VerifSnapshot, ok bool) {
 // quiesce waits until the broker has handled everything the clients sent, has nothing in flight,
 // and the clients have received everything the broker wrote. Returns "" or WEDGED/TIMEOUT.
 func (s *session) quiesce() string {
-	deadline := time.Now().Add(4 * time.Second)
+	deadline := time.Now().Add(12 * time.Second)
 	stable := 0
 	for {
 		snap, ok := s.snapshot(false)
@@ -639,7 +639,7 @@ func (s *session) open(id int) string {
 	}
 	c.startReader()
 	wait := func(n int64) bool {
-		dl := time.Now().Add(3 * time.Second)
+		dl := time.Now().Add(10 * time.Second)
 		for c.received() < n {
 			if time.Now().After(dl) || c.isEOF() {
 				return false
